@@ -380,7 +380,8 @@ func prepare(src, baseExplain string, soft, freeze bool, probe func(string) stri
 			// Same EXPLAIN: keyword.  EXPLAIN differs only by the flipped spelling standing where
 			// the original spelling stood: a name (Function IF, alias KEY, table ttl), left alone.
 			// Any other difference: flipped anyway, so that the variants report it.
-			t.flippable = !containsWord(baseExplain, t.text, false)
+			// (also at the start of a longer word: any(DISTINCT x) prints anyDistinct, the spelling of a function NAME)
+			t.flippable = !containsWord(baseExplain, t.text, false) && !containsWordStart(baseExplain, t.text)
 			if !t.flippable && probe != nil {
 				f := flipCase(t.text, 0)
 				if f == t.text {
